@@ -864,7 +864,7 @@ func (e *Enc) frameCheck(a *Addr, what string, pos token.Pos) {
 }
 
 func (e *Enc) inFrame(l *Addr) string {
-	alts := []string{"(> " + l.base + " W_0)"}
+	alts := []string{"(> " + l.base + " W_0)", "(= " + l.base + " 0)"} // fresh memory; nil designates no location
 	if l.isMap {
 		for _, m := range e.modAddrs {
 			if m.isMap && types.Identical(m.mapT, l.mapT) {
@@ -1000,7 +1000,7 @@ func (e *Enc) instr(in ssa.Instruction) {
 	case *ssa.Convert:
 		e.convertInstr(in)
 	case *ssa.MakeInterface:
-		x := e.term(in.X)
+		x := e.argTerm(in.X) // an interior pointer boxed for a library call is copied in / out around that call
 		if st, ok := x.T.Underlying().(*types.Struct); ok && st.NumFields() > 0 {
 			// box: immutable copy behind a fresh reference
 			ref := e.alloc("box")
@@ -1332,7 +1332,8 @@ func (e *Enc) rangeInstr(in *ssa.Range) {
 	e.declare(name+"_0", srt)
 	e.cur.mem[name] = fmt.Sprintf("((as const %s) false)", srt)
 	e.vals[in] = e.term(in.X) // the iterator stands for the map
-	e.ghost["visited_"+sanitize(in.Name())] = Term{S: "", Sort: srt}
+	e.ghost["visited_"+sanitize(in.Name())] = Term{S: e.cur.mem[name], Sort: srt}
+	e.ghost["visited"] = e.ghost["visited_"+sanitize(in.Name())]
 }
 
 func (e *Enc) havocRangeGhost(rg *ssa.Range) {
@@ -1468,6 +1469,60 @@ func (e *Enc) exit() {
 			goal = env.bool(c.Expr)
 		}()
 		e.oblige("ensures", label, goal, c.Text, c.Props, e.fn.Pos())
+	}
+	// refinement: an in-repo method must meet the interface-level contract that callers of the
+	// interface assume (clauses labelled def-* define an uninterpreted function and are skipped)
+	if recv := e.fn.Signature.Recv(); recv != nil {
+		mname := e.fn.Name()
+		if o := e.fn.Origin(); o != nil {
+			mname = o.Name()
+		}
+		for key, ict := range w.cs.Funcs {
+			if ict.Options["interface"] == "" || ict.Assumed || !strings.HasSuffix(key, "."+mname) {
+				continue
+			}
+			itName := strings.TrimSuffix(key, "."+mname)
+			var it types.Type
+			func() {
+				defer func() { recover() }()
+				it = env.evalTypeStr(itName)
+			}()
+			if it == nil {
+				continue
+			}
+			iface, ok := it.Underlying().(*types.Interface)
+			if !ok {
+				continue
+			}
+			rt := recv.Type()
+			var recvIface string
+			rp := e.vals[e.fn.Params[0]].(Term)
+			switch {
+			case types.Implements(rt, iface):
+				if st, isSt := rt.Underlying().(*types.Struct); isSt && st.NumFields() > 0 {
+					continue // boxed struct value: identity of the box is not observable here
+				}
+				recvIface = w.makeIface(Term{rp.S, rp.Sort, rt})
+			default:
+				continue
+			}
+			rv := map[string]Term{}
+			for k, v := range vars {
+				rv[k] = v
+			}
+			rv["recv"] = Term{recvIface, "Iface", it}
+			renv := e.env(e.entry, st, rv)
+			for i, c := range ict.Ensures {
+				if strings.HasPrefix(c.Label, "def-") {
+					continue
+				}
+				label := c.Label
+				if label == "" {
+					label = fmt.Sprint(i)
+				}
+				e.oblige("refines", key+"/"+label, renv.bool(c.Expr), "interface-level contract of "+key+": "+c.Text, nil, e.fn.Pos())
+			}
+		}
 	}
 	if e.isInit {
 		// the package initialiser establishes the global invariants of its package
